@@ -319,3 +319,110 @@ def r5_sorted_lists(ctx):
 
 
 RULES += [r5_sorted_lists]
+
+
+# ------------------------------------------------------------------ sign division over the integers
+SI = "include/crab/domains/sign_impl.hpp"
+
+
+def _eval3b(c, val):
+    c = strip(c)
+    if not isinstance(c, dict):
+        return None
+    v = val(c)
+    if v is not None:
+        return v
+    k = c.get("k")
+    if k == "un" and c.get("op") == "!":
+        r = _eval3b(c.get("e"), val)
+        return None if r is None else (not r)
+    if k == "bin" and c.get("op") in ("&&", "||"):
+        a, b = _eval3b(c.get("L"), val), _eval3b(c.get("R"), val)
+        if c["op"] == "&&":
+            return False if (a is False or b is False) else (True if (a and b) else None)
+        return True if (a is True or b is True) else (False if (a is False and b is False) else None)
+    return None
+
+
+def _first_return(n, val):
+    """the `ret` node reached when interpreting statement n with decided conditions; None = falls through; raises on unknown"""
+    if not isinstance(n, dict):
+        return None
+    k = n.get("k")
+    if k == "seq":
+        for x in n.get("b", []):
+            r = _first_return(x, val)
+            if r is not None:
+                return r
+        return None
+    if k == "if":
+        c = _eval3b(n.get("c"), val)
+        if c is None:
+            raise ValueError(src(n.get("c"))[:60])
+        return _first_return(n.get("t"), val) if c else (_first_return(n.get("e"), val) if "e" in n else None)
+    if k == "ret":
+        return n
+    return None
+
+
+def r6_sign_division(ctx):
+    ctx.rule("C08.r6", "sign<z_number>::operator/: the quotient of two non-zero integers can be 0 (1/2), so when the sign of the product is "
+             "strict (>0 / <0) the result returned is not that strict sign", floor=1)
+    fs = [f for f in ctx.db.fns(SI, pk="crab::domains::sign::operator/") if "z_number" in (f.get("cls") or "")]
+    if not ctx.need(fs, "sign<z_number>::operator/"):
+        return
+    for fn in fs:
+        body = fn["body"]
+        d = local_decls(body)
+        # innermost block that computes the product
+        blk = None
+        prod_ids = set()
+        for b in walk(body):
+            if b.get("k") == "seq" and any(any(y.get("k") == "call" and y.get("op") == "*" for y in walk(st)) for st in b.get("b", [])
+                                           if st.get("k") != "if" and st.get("k") != "seq"):
+                blk = b
+        if blk is None:
+            ctx.ok("operator/ does not go through the product", fn, body)
+            continue
+        for dd in d.values():
+            if "i" in dd and any(y.get("k") == "call" and y.get("op") == "*" for y in walk(dd["i"])):
+                prod_ids.add(dd["id"])
+
+        def is_prod(e):
+            e = strip_move(e)
+            if isinstance(e, dict) and e.get("k") == "call" and e.get("op") == "*":
+                return True
+            if isinstance(e, dict) and e.get("k") == "ctor" and e.get("cp") and e.get("a"):
+                return is_prod(e["a"][0])
+            return isinstance(e, dict) and e.get("k") == "ref" and e.get("id") in prod_ids
+        bad = None
+        try:
+            for gt, lt in ((True, False), (False, True)):
+                def val(c, gt=gt, lt=lt):
+                    if c.get("k") == "ref" and "integral_constant<bool, true>" in (c.get("qna") or ""):
+                        return True
+                    if c.get("k") == "ref" and "integral_constant<bool, false>" in (c.get("qna") or ""):
+                        return False
+                    if c.get("k") == "call" and callee(c) and "o" in c and is_prod(c.get("o")):
+                        nm = callee(c)["name"]
+                        if nm == "greater_than_zero":
+                            return gt
+                        if nm == "less_than_zero":
+                            return lt
+                        if nm in ("equal_zero", "is_bottom", "is_top", "not_equal_zero", "greater_or_equal_than_zero", "less_or_equal_than_zero"):
+                            return False
+                    return None
+                r = _first_return(blk, val)
+                if r is not None and is_prod(r.get("v")):
+                    bad = (r, gt)
+        except ValueError as e:
+            ctx.undecided("sign<z_number>::operator/: cannot evaluate `%s`" % e, fn, blk)
+            continue
+        if bad:
+            ctx.bad("sign<z_number>::operator/ returns the sign of the PRODUCT when that sign is %s: integer division truncates, so e.g. "
+                    "1/2 = 0 is not %s" % ("> 0" if bad[1] else "< 0", "> 0" if bad[1] else "< 0"), fn, bad[0], sig="sign-div-strict")
+        else:
+            ctx.ok("strict product signs are weakened before being returned", fn, blk)
+
+
+RULES += [r6_sign_division]
